@@ -116,7 +116,31 @@ structure St where
   trusted : Nat := 0
   restarts : Nat := 0
   silences : Nat := 0
+  /-- the generation word of the segment file (the model's: `genFinish ∘ genStart` per publication; a restart
+      takes the segment over in place) -/
+  gen : Nat := 0
+  /-- the generation the implementation showed after its previous publication -/
+  implGen : Option Nat := none
+  /-- C11 on the implementation's generations: even, non-zero, different after every completed update -/
+  c11 : Bool := true
+  /-- (bound, as-of) of every record the MODEL published with a trusted status (by C09.model_holds these are
+      exactly the measurement-backed ones) -/
+  backed : List (Int × TimeSpec) := []
+  /-- C09 on the implementation's records: a trusted status only with a measurement-backed (bound, as-of) -/
+  c09 : Bool := true
+  coldTemptation : Bool := false
 deriving Inhabited
+
+/-- `rec a b c d bound drift reserved status [@gen]`: (bound, as-of, status code, generation) -/
+def parsePub (toks : List String) : Option (Int × TimeSpec × Int × Option Nat) :=
+  match toks with
+  | "rec" :: a :: b :: _ :: _ :: bd :: _ :: _ :: st :: rest => do
+    let a ← a.toInt?; let b ← b.toInt?; let bd ← bd.toInt?; let st ← st.toInt?
+    let g := match rest with
+      | [g] => if g.startsWith "@" then (g.drop 1).toString.toNat? else none
+      | _ => none
+    some (bd, ⟨a, b⟩, st, g)
+  | _ => none
 
 def step (w : World) (implOuts : List (List String)) (s : St) (iev : Nat × Ev) : St :=
   let (i, ev) := iev
@@ -127,10 +151,24 @@ def step (w : World) (implOuts : List (List String)) (s : St) (iev : Nat × Ev) 
       | some t => pollOk w ta tq tp t phc
       | none => decide (ta ≤ tq) && decide (tq ≤ tp)
     let d' := s.d.step w we
-    let out := if d'.published.length == s.d.published.length then "panic"
-               else recordText (d'.published.headD default)
+    let published := d'.published.length != s.d.published.length
+    let gen' := if published then genFinish (genStart s.gen) else s.gen
+    let r' : Record := d'.published.headD default
+    let out := if !published then "panic" else recordText r' ++ s!" @{gen'}"
+    let backed' := if published && r'.status != .unknown then (r'.bound, r'.asOf) :: s.backed else s.backed
+    -- the implementation's publication
+    let ip := (implOuts[i]?).bind parsePub
+    let c11' := match ip with
+      | some (_, _, _, some g) => s.c11 && decide (g % 2 = 0) && decide (g ≠ 0) && (s.implGen != some g)
+      | _ => s.c11
+    let c09' := match ip with
+      | some (bd, ao, st, _) => s.c09 && (st == 0 || backed'.any (fun p => p.1 == bd && p.2 == ao))
+      | none => s.c09
+    let cold := s.coldTemptation || (s.backed.isEmpty && published && d'.u.fsm != .unknown && backed'.isEmpty)
     { s with d := d', hypOk := s.hypOk && hyp, maxT := max s.maxT tp, outs := out :: s.outs,
-             silences := s.silences + (if reply.isNone then 1 else 0) }
+             silences := s.silences + (if reply.isNone then 1 else 0), gen := gen',
+             implGen := (match ip with | some (_, _, _, some g) => some g | _ => s.implGen),
+             c11 := c11', backed := backed', c09 := c09', coldTemptation := cold }
   | .restart => { s with d := s.d.step w .restart, outs := "restarted" :: s.outs, restarts := s.restarts + 1 }
   | .query tr tm =>
     match s.d.published with
@@ -171,8 +209,10 @@ def line (kind : String) (args impl : List String) : Option String :=
       let implOuts := splitSemi impl
       let s0 : St := { d := { u := Updater.new rho }, hypOk := good }
       let s := (evs.zipIdx.map (fun (e, i) => (i, e))).foldl (step w implOuts) s0
-      let v := if s.checked == 0 then "C01:na" else if s.c01 then "C01:holds" else "C01:FAILS"
-      let tags := (if s.trusted > 0 then ["trusted"] else []) ++ (if s.tight > 0 then ["tight"] else []) ++
+      let v := (if s.checked == 0 then "C01:na" else if s.c01 then "C01:holds" else "C01:FAILS") ++
+        (if s.implGen.isNone then " C11:na" else if s.c11 then " C11:holds" else " C11:FAILS") ++
+        (if s.c09 then " C09:holds" else " C09:FAILS")
+      let tags := (if s.coldTemptation then ["trustTemptation"] else []) ++ (if s.d.published.length ≥ 3 then ["pubs3"] else []) ++ (if s.trusted > 0 then ["trusted"] else []) ++ (if s.tight > 0 then ["tight"] else []) ++
         (if s.restarts > 0 then ["restart"] else []) ++ (if s.silences > 0 then ["outage"] else []) ++
         (if !s.hypOk then ["hypothesesViolated"] else []) ++ (if s.na > 0 then ["someNa"] else [])
       some s!"{String.intercalate " ; " s.outs.reverse} | {v} | {String.intercalate "," tags}"
